@@ -87,19 +87,27 @@ def run(ctx):
     vf.write_ndjson(cpath, cases)
 
     # ---- 2. the real frame builders
-    binary = vf.build_gotest(ctx, ".", ["c03"])
+    binary = vf.build_gotest(ctx, ".", ["common", "c03"])
     nrand = 2500 if quick else 40000
-    env = {"VF_C03_SHARDS": 1, "VF_CASES": cpath, "VF_C03_N": nrand, "VF_C03_NCONN": 500 if quick else 6000}
+    env = {"VF_C03_SHARDS": 1, "VF_CASES": cpath, "VF_C03_N": nrand, "VF_C03_NCONN": 500 if quick else 6000,
+           "VF_C03_NSESS": 60 if quick else 800}
+    sess_stats = {}
     if replay:
-        env.update(VF_C03_N=0, VF_C03_NCONN=0)
-    for test in ("TestVfC03Replay", "TestVfC03Record", "TestVfC03Boundary", "TestVfC03ConnPath"):
+        env.update(VF_C03_N=0, VF_C03_NCONN=0, VF_C03_NSESS=0)
+    for test in ("TestVfC03Replay", "TestVfC03Record", "TestVfC03Boundary", "TestVfC03ConnPath", "TestVfC03Session"):
         rc, out = vf.run_gotest(ctx, binary, "^%s$" % test, env=env, timeout=900)
         if rc != 0 or "--- PASS" not in out:
             raise vf.Inconclusive("driver %s failed (rc=%s):\n%s" % (test, rc, out[-3000:]))
+        m = re.search(r"VFC03 session sessions=(\d+) noconnect=(\d+) ops=(\d+) frames=(\d+) unexplained=(\d+)", out)
+        if m:
+            ns, nc, nops, nfr, nun = map(int, m.groups())
+            sess_stats = dict(sessions=ns, not_connected=nc, api_calls=nops, frames=nfr, unexplained_calls=nun)
+            if not replay and (nc * 4 > ns or nun * 10 > max(nops, 1) or nfr == 0):
+                raise vf.Inconclusive("session-level driver: %s" % sess_stats)
         m = re.search(r"VFC03 connpath=(\d+) skipped=(\d+)", out)
         if m and int(m.group(2)) * 10 > int(m.group(1)):
             raise vf.Inconclusive("the connection-level stub carried only %s requests (%s skipped)" % (m.group(1), m.group(2)))
-    recorded = sorted(os.path.join(ctx.tmp, f) for f in os.listdir(ctx.tmp) if re.match(r"c03_(gen|rand|big|conn)_\d+\.ndjson$", f))
+    recorded = sorted(os.path.join(ctx.tmp, f) for f in os.listdir(ctx.tmp) if re.match(r"c03_(gen|rand|big|conn|sess)_\d+\.ndjson$", f))
     vecs = {}
     for f in recorded:
         for v in vf.read_ndjson(f):
@@ -124,7 +132,7 @@ def run(ctx):
     if len(gen_vecs) != len(cases):
         raise vf.Inconclusive("harness built %d of %d generated cases" % (len(gen_vecs), len(cases)))
     ctx.log("harness: %d vectors recorded (%d generated, %d random, %d boundary summaries)" % (
-        len(vecs), len(gen_vecs), sum(1 for v in vecs.values() if v.get("src") in ("random", "conn", "boundary")),
+        len(vecs), len(gen_vecs), sum(1 for v in vecs.values() if v.get("src") in ("random", "conn", "boundary", "session")),
         sum(1 for v in vecs.values() if "sum" in v)))
 
     # ---- 3. TLC decides every vector
@@ -235,7 +243,8 @@ def run(ctx):
         boundary_summaries=sum(1 for v in vecs.values() if "sum" in v),
         frames_sent=len(sent), verdict_classes=dict(tally),
         bytes_compared_with_reference_encoder=cmpn, bytes_identical=same,
-        v5_execute_layouts=dict(layouts),
+        v5_execute_layouts=dict(layouts), session_level=sess_stats,
+        connection_sequence_vectors=sum(1 for v in vecs.values() if v.get("src") == "conn"),
         samples=[dict(kind=sample["kind"], v=sample["v"], stream=sample["stream"], values=sample["values"],
                       pagesize=sample["pagesize"], serial=sample["serial"], bytes=sample["bytes"],
                       verdict=verdicts.get(sample["id"], {"class": "ok"})["class"])] if sample else [],
